@@ -9,7 +9,8 @@ vfs.install()
 class FakePath:
     """Stands for a file under the target directory.  Records every mutation."""
 
-    def __init__(self, content: bytes, rel: str = "f.py", vanished: bool = False, base: str = "/d"):
+    def __init__(self, content: bytes, rel: str = "f.py", vanished: bool = False, base: str = "/d", unwritable: bool = False):
+        self.unwritable = unwritable
         self.content = content
         self.rel = rel
         self.base = base
@@ -38,6 +39,8 @@ class FakePath:
         return self.read_bytes().decode("utf-8")
 
     def write_bytes(self, b):
+        if self.unwritable:
+            raise PermissionError(13, "Permission denied", self.rel)
         self.writes.append(b)
         self.content = b
 
